@@ -144,15 +144,15 @@ func c17Exec(c evCase, x *pbt.Ctx) error {
 // from the (justified) parent checkpoint, delivered as messages or inside the header,
 // plus forged material that must not count; a restart at a generated position.
 type c17Canon struct {
-	N        int    `json:"n"`
-	Epoch    int    `json:"epoch"`
-	K1       int    `json:"k1"`       // signers of genesis -> cp1
-	K2       int    `json:"k2"`       // signers of cp1 -> cp2
-	InHeader bool   `json:"in_header"` // signatures travel in the block header instead of messages
-	Forged   []int  `json:"forged"`   // kinds of forged header slots added on cp1 (see badSupKinds)
-	ForgedN  int    `json:"forged_n"` // how many forged slots
-	Restart  int    `json:"restart"`  // position of a restart (0 = none)
-	Garbage  int    `json:"garbage"`  // forged verification messages sent for cp1 before the real ones
+	N        int   `json:"n"`
+	Epoch    int   `json:"epoch"`
+	K1       int   `json:"k1"`        // signers of genesis -> cp1
+	K2       int   `json:"k2"`        // signers of cp1 -> cp2
+	InHeader bool  `json:"in_header"` // signatures travel in the block header instead of messages
+	Forged   []int `json:"forged"`    // kinds of forged header slots added on cp1 (see badSupKinds)
+	ForgedN  int   `json:"forged_n"`  // how many forged slots
+	Restart  int   `json:"restart"`   // position of a restart (0 = none)
+	Garbage  int   `json:"garbage"`   // forged verification messages sent for cp1 before the real ones
 }
 
 func c17CanonGen(t *rapid.T) c17Canon {
@@ -297,7 +297,9 @@ func c17CanonExec(c c17Canon, x *pbt.Ctx) error {
 	}
 	// what the valid signatures shown so far imply (forged header slots may have displaced valid ones)
 	j1 := h.ffg.supermajority(0, cp1)
-	if !c.InHeader && j1 != (c.K1 >= thr) {
+	// (with 10 validators an "unused-slot" forgery on validator 9 lands in its own slot and is a
+	// valid signature, so the model may count one more than the messages sent; never fewer)
+	if !c.InHeader && c.K1 >= thr && !j1 {
 		return fmt.Errorf("HARNESS: %d valid messages sent but the model counts supermajority=%v", c.K1, j1)
 	}
 	if err := expect("after the signatures for the first checkpoint", j1, false); err != nil {
@@ -372,7 +374,7 @@ type c17Skip struct {
 	N       int  `json:"n"`
 	Epoch   int  `json:"epoch"`
 	K       int  `json:"k"`
-	First   bool `json:"first"`   // the cp1->cp2 signatures arrive before the skipping link is complete
+	First   bool `json:"first"` // the cp1->cp2 signatures arrive before the skipping link is complete
 	Restart bool `json:"restart"`
 }
 
